@@ -100,6 +100,9 @@ func VerifH_v4_alloc() {
 	}
 	if err != nil {
 		vnd.Cover("full")
+		if vnd.And(named, vnd.And(hv >= start, hv <= start+uint32(n)-1)) {
+			vnd.Assert(hbit(pre, uint64(hv-start)), "C07 v4 a hint naming a free address is honoured, not refused")
+		}
 		vnd.Assert(err == allocators.ErrNoAddrAvail, "C05 v4 failure reports no address available")
 		vnd.Assert(hallSet(pre, n), "C05 v4 fails only when every block is outstanding")
 		vnd.Assert(hsameExcept(post, pre, 0, false, true), "C05 v4 failure changes nothing")
